@@ -82,7 +82,7 @@ def make_case(seed, facts, index=0):
 
         base["fault"] = _choose_faults(rng, base["world"], base["opts"], facts, 1)[0][0]  # class-balanced, as in C12
         if rng.random() < 0.3:
-            base["fault"] = rng.choice(faults.enumerate_oddities(base["world"], base["opts"]))  # inputs of debatable validity: tolerance / repair paths
+            base["fault"] = rng.choice(faults.enumerate_oddities(base["world"], base["opts"], facts))  # inputs of debatable validity: tolerance / repair paths
     elif mode == "io_fault":
         f = dict(rng.choice(IO_FAULTS))
         if "after_bytes" in f and rng.random() < 0.5:
@@ -130,6 +130,11 @@ def _sys_monitor(res, stats, tag=""):
 
 
 def valid_case(case):
+    if case.get("mode") == "input_fault":
+        from .c12 import _fault_applicable  # pylint: disable=import-outside-toplevel
+
+        if not _fault_applicable(case["world"], case["fault"]):
+            return False
     return c16.valid_case(case)
 
 
@@ -146,6 +151,8 @@ def monitors(res, inputs_exist=True):
         elif ev == "proc":
             v.append({"cls": "process", "site": e["name"], "detail": str(e.get("detail"))})
         elif ev == "open" and e["w"]:
+            if e.get("real") in ("/dev/null", "/dev/tty") or str(e.get("real", "")).startswith("/dev/pts/"):
+                continue  # not a file: nothing is created or modified
             if e["cls"] not in ALLOWED_MUTATION["open"]:
                 v.append({"cls": "write-outside", "site": "open:%s" % e["cls"], "detail": core.normalise_text(e["path"], res)})
         elif ev.startswith("os.") and "targets" in e:
@@ -333,6 +340,13 @@ def exec_case(case, facts, src=None):
 
 
 def reduce_candidates(case):
+    if case.get("io_faults_more"):
+        yield dict(case, io_faults_more=[])
+        yield dict(case, io_fault=case["io_faults_more"][0], io_faults_more=case["io_faults_more"][1:])
+    if case.get("crash_at2"):
+        yield dict(case, crash_at2=None)
+    if case.get("mode") in ("io_fault", "crash_history", "input_fault"):
+        yield dict(case, mode="clean")
     for c in c16.reduce_candidates(case):
         yield c
     if case.get("mode") == "crash_history" and case.get("crash_at", 1) > 1:
@@ -354,11 +368,12 @@ def extra_phase(tier, master, facts, src, log):
 
     sweep = []
     seen_worlds = set()
-    for k, c12case in enumerate(_kind_sweep_cases(master, tree.all_facts(src or runner.DEFAULT_SRC))):
+    all_facts0 = tree.all_facts(src or runner.DEFAULT_SRC)
+    for k, c12case in enumerate(_kind_sweep_cases(master, all_facts0)):
         flist = list(c12case["faults"])
         if c12case["seed"] not in seen_worlds:
             seen_worlds.add(c12case["seed"])
-            flist += faults.enumerate_oddities(c12case["world"], c12case["opts"])
+            flist += faults.enumerate_oddities(c12case["world"], c12case["opts"], all_facts0)
         for j, f in enumerate(flist):
             if f["class"] not in ("config", "storage", "cmdline", "oddity") and c12case["opts"]["country"] != "us":
                 continue  # row-level and table-level kinds on the first world only; config / storage / command-line kinds and oddities on all four
